@@ -257,14 +257,33 @@ def token_ends(terms, name, text, p, scanner='ideal'):
     return sorted(ends)
 
 
-def enumerate_derivations_ignore(rules, terms, start, text, ignores, cap=400, scanner='ideal'):
+def gap_closure_terms(text, terms, ign_names, scanner):
+    """like gap_closure for %ignore terminals given by name (string or regexp): under the scanner reading an ignored
+    match is the regexp engine's (greedy) match at the position, under 'ideal' any full match"""
+    n = len(text)
+    reach = []
+    for i in range(n + 1):
+        seen = {i}
+        todo = [i]
+        while todo:
+            p = todo.pop()
+            for nm in ign_names:
+                for e in token_ends(terms, nm, text, p, 'ideal' if scanner == 'ideal' else 'dynamic'):
+                    if e not in seen:
+                        seen.add(e)
+                        todo.append(e)
+        reach.append(sorted(seen))
+    return reach
+
+
+def enumerate_derivations_ignore(rules, terms, start, text, ignores, cap=400, scanner='ideal', ign_terms=None):
     """Character-level derivations of `start` over text for the dynamic lexers with %ignore: the tokens tile the
     text in order, ignored matches may only lie between tokens (before the first, after the last); every token
     span is matched by its terminal (string literal or regexp; see token_ends for `scanner`).
     Tree = ('N', rule_id, children) | ('T', term, text, pos).
     Canonical spans: a symbol ends where its last token ends.  Returns (list, cyclic)."""
     n = len(text)
-    reach = gap_closure(text, ignores)
+    reach = gap_closure(text, ignores) if ign_terms is None else gap_closure_terms(text, terms, ign_terms, scanner)
     by_origin = {}
     for r in rules:
         by_origin.setdefault(r['origin'], []).append(r)
@@ -1015,6 +1034,54 @@ def tree_to_derivation(t, rules):
     if len(cand) != 1:
         return None
     return ('N', cand[0]['id'], tuple(cs))
+
+
+def tree_to_posderivation(t, rules):
+    """like tree_to_derivation, token leaves keep their start position: ('T', type, text, start_pos)"""
+    from lark import Tree, Token
+    if isinstance(t, Token):
+        return ('T', str(t.type), str(t), t.start_pos)
+    if not isinstance(t, Tree):
+        return None
+    cs = [tree_to_posderivation(c, rules) for c in t.children if c is not None]
+    if any(c is None for c in cs):
+        return None
+    shape = [(c[0] == 'T', c[1] if c[0] == 'T' else rules[c[1]]['origin']) for c in cs]
+    cand = [r for r in rules if r['name'] == str(t.data) and [(a, b) for a, b in r['exp']] == shape]
+    if len(cand) != 1:
+        return None
+    return ('N', cand[0]['id'], tuple(cs))
+
+
+def gen_ws_grammar(rng):
+    """dynamic-lexer grammars with a greedy multi-character %ignore over blanks and regexp terminals that may swallow
+    ignorable characters (AS: /a\\s/, SB: / ?b/ ...), signed rule and terminal priorities; texts over {a, b, ' '}"""
+    tpool = [('A', '"a"'), ('B', '"b"'), ('AS', '/a /'), ('SB', '/ b/'), ('ASS', '/a ?/'), ('BS', '/b +/'),
+             ('SA', '/ ?a/'), ('AB', '/a ?b/'), ('S', '" "')]
+    chosen = [tpool[0], tpool[1]] + rng.sample(tpool[2:], rng.randint(2, 4))
+    terms = [n for n, _ in chosen]
+    nts = ['start', 'w', 'v'][:rng.randint(2, 3)]
+    lines = []
+    for nt in nts:
+        idx = nts.index(nt)
+        alts = []
+        for _ in range(rng.randint(2, 3)):
+            n = rng.choice([1, 2, 2, 3])
+            syms = []
+            for _ in range(n):
+                if rng.random() < 0.55 or idx == len(nts) - 1:
+                    syms.append(rng.choice(terms))
+                else:
+                    syms.append(rng.choice(nts[idx + 1:]))
+            alts.append(' '.join(syms))
+        alts = list(dict.fromkeys(alts))
+        pr = '.%d' % rng.choice([-2, -1, 1, 2, 3]) if rng.random() < 0.5 else ''
+        lines.append('%s%s: %s' % (nt, pr, ' | '.join(alts)))
+    for n, v in chosen:
+        pr = '.%d' % rng.choice([-2, -1, 1, 2, 3]) if rng.random() < 0.5 else ''
+        lines.append('%s%s: %s' % (n, pr, v))
+    lines.append(rng.choice(['%ignore / +/', '%ignore / +/', '%ignore /[ ]+/', '%ignore " "\n%ignore /  +/']))
+    return '\n'.join(lines) + '\n'
 
 
 def idtree_to_derivation(t):
